@@ -29,7 +29,8 @@ impl Ctx {
     pub fn callf(&mut self, id: &str, a: &[Arg]) -> Option<f64> {
         reply_f(&self.call(id, a))
     }
-    pub fn violation(&mut self, site: &str, what: &str, case: Vec<String>, observed: String, required: &str) {
+    pub fn violation<C: Into<serde_json::Value>>(&mut self, site: &str, what: &str, case: C, observed: String, required: &str) {
+        let case: serde_json::Value = case.into();
         let n = self.sites.entry(site.to_string()).or_default();
         *n += 1;
         self.nviol += 1;
@@ -110,16 +111,16 @@ pub fn ptags(t: &[Arg], names: &[String]) -> String {
     }
 }
 
-fn fmt(x: f64) -> String {
+pub fn fmt(x: f64) -> String {
     format!("{:e} (0x{:016x})", x, x.to_bits())
 }
 
 /// constructed core-domain parameter tuples of a family
-fn tuples(cx: &mut Ctx, fam: &str, ct: &[String], cn: &[String], n: usize) -> Vec<Vec<Arg>> {
+pub fn tuples(cx: &mut Ctx, fam: &str, ct: &[String], cn: &[String], n: usize) -> Vec<Vec<Arg>> {
     tuples_ext(cx, fam, ct, cn, n).into_iter().map(|x| x.0).collect()
 }
 /// (tuple, generated from the extended domain?)
-fn tuples_ext(cx: &mut Ctx, fam: &str, ct: &[String], cn: &[String], n: usize) -> Vec<(Vec<Arg>, bool)> {
+pub fn tuples_ext(cx: &mut Ctx, fam: &str, ct: &[String], cn: &[String], n: usize) -> Vec<(Vec<Arg>, bool)> {
     let mut out = vec![];
     let mut tries = 0;
     while out.len() < n && tries < 4 * n {
@@ -280,7 +281,7 @@ pub fn main(args: &[String]) {
     match prop {
         "C01" => c01_c02(&mut cx, "C01"),
         "C02" => c01_c02(&mut cx, "C02"),
-        _ => {}
+        _ => crate::search_mods::run(prop, &mut cx),
     }
     println!("{}", json!({"kind":"stats","evaluations":cx.evals,"violations":cx.nviol,"sites":cx.sites,
         "hangs": crate::HANGS.lock().unwrap().clone()}));
@@ -290,11 +291,18 @@ pub fn main(args: &[String]) {
 /// `harness replay <prop> <json list of request lines>`: re-evaluate the requests of a recorded case
 pub fn replay(args: &[String]) {
     std::panic::set_hook(Box::new(|_| {}));
-    let case: Vec<String> = args.get(1).and_then(|s| serde_json::from_str(s).ok()).unwrap_or_default();
-    for l in case {
-        if let Some((id, a)) = parse_line(&l) {
-            println!("{}  =>  {}", l, crate::call_timeout(&id, &a, 10_000));
+    let prop = args.get(0).cloned().unwrap_or_default();
+    let v: serde_json::Value = args.get(1).and_then(|s| serde_json::from_str(s).ok()).unwrap_or(serde_json::Value::Null);
+    match &v {
+        serde_json::Value::Array(a) if a.iter().all(|x| x.is_string()) => {
+            for l in a {
+                let l = l.as_str().unwrap();
+                if let Some((id, a)) = parse_line(l) {
+                    println!("{}  =>  {}", l, crate::call_timeout(&id, &a, 10_000));
+                }
+            }
         }
+        other => println!("{}", crate::search_mods::replay(&prop, other)),
     }
     std::process::exit(0);
 }
